@@ -78,8 +78,10 @@ Proof. repeat split. Qed.
    [xreachable c0 c1 x]: x is reachable from the initial state (every node: term 0, empty
    log) by ANY finite sequence of events of RaftSys.xstep — on any node: Campaign, Propose,
    Tick, crash-and-restart from the persisted state, or Step of ANY message that was ever
-   sent to it, snapshots (MsgSnap) included; log compaction changes no handler's behaviour (the network is a bag that only grows: loss, duplication, reordering, delay and
-   partitions are schedules).  Any number of nodes; the voter configuration (c0, c1) is a
+   sent to it, snapshots (MsgSnap) included (the network is a bag that only grows: loss,
+   duplication, reordering, delay and partitions are schedules).  Log compaction changes no
+   handler's behaviour: the model keeps whole logs and a snapshot stands for a log prefix.
+   Any number of nodes; the voter configuration (c0, c1) is a
    fixed joint configuration, c1 = [] giving a plain majority configuration; it must not be
    empty.  No bound on anything.  Membership change is not covered at this level (see the
    joint-quorum theorems above for what the quorum layer guarantees during one). *)
